@@ -101,8 +101,8 @@ func (ex *Exec) visit(fr *frame, instr ssa.Instruction) {
 		ex.runDefers(fr)
 	case *ssa.Go:
 		f, args := ex.prepareCall(fr, &in.Call)
-		ex.yieldPoint()
 		ex.spawn(f, args, ex.where(fr))
+		ex.yieldPoint("go")
 	case *ssa.Send:
 		ex.chanSend(fr, ex.get(fr, in.Chan).(*Chan), ex.get(fr, in.X))
 	case *ssa.Select:
@@ -688,6 +688,13 @@ func (ex *Exec) keyEq(a, b Value) *Term {
 		return ex.B.And(cs...)
 	case *Chan:
 		return ex.B.Bool(x.C == b.(*Chan).C)
+	case *ArrayV:
+		y := b.(*ArrayV)
+		cs := []*Term{}
+		for i := range x.E {
+			cs = append(cs, ex.keyEq(x.E[i], y.E[i]))
+		}
+		return ex.B.And(cs...)
 	}
 	ex.abort("unsupported", fmt.Sprintf("map key of kind %T", a))
 	return nil
